@@ -58,12 +58,12 @@ def check(w, tier, t0):
     sd = lib.seed()
     verdict = lib.Verdict(PROP)
     if tier == "quick":
-        spaces = [(dict(MAXACTS=8, MAXWRITES=3, MAXDEPTH=3, MAXBLOCKS=3, NESTED="TRUE", FAULTS="TRUE"), ";prep"),
-                  (dict(MAXACTS=7, MAXWRITES=3, MAXDEPTH=3, MAXBLOCKS=3, NESTED="FALSE", FAULTS="TRUE"), "nonest;nonest,prep,skipdef")]
+        spaces = [(dict(MAXACTS=7, MAXWRITES=3, MAXDEPTH=3, MAXBLOCKS=3, NESTED="TRUE", FAULTS="TRUE", VIAS='{"", "prep"}'), ";prep"),
+                  (dict(MAXACTS=7, MAXWRITES=3, MAXDEPTH=3, MAXBLOCKS=3, NESTED="FALSE", FAULTS="TRUE", VIAS='{""}'), "nonest;nonest,prep,skipdef")]
         nrand = 3000
     else:
-        spaces = [(dict(MAXACTS=10, MAXWRITES=3, MAXDEPTH=3, MAXBLOCKS=4, NESTED="TRUE", FAULTS="TRUE"), ";prep;skipdef;prep,skipdef"),
-                  (dict(MAXACTS=9, MAXWRITES=3, MAXDEPTH=3, MAXBLOCKS=4, NESTED="FALSE", FAULTS="TRUE"), "nonest;nonest,prep;nonest,skipdef;nonest,prep,skipdef")]
+        spaces = [(dict(MAXACTS=10, MAXWRITES=3, MAXDEPTH=3, MAXBLOCKS=4, NESTED="TRUE", FAULTS="TRUE", VIAS='{"", "prep"}'), ";prep;skipdef;prep,skipdef"),
+                  (dict(MAXACTS=9, MAXWRITES=3, MAXDEPTH=3, MAXBLOCKS=4, NESTED="FALSE", FAULTS="TRUE", VIAS='{"", "prep"}'), "nonest;nonest,prep;nonest,skipdef;nonest,prep,skipdef")]
         nrand = 60000
     states = trans = 0
     events = []
